@@ -43,11 +43,40 @@ def configs(tier):
     ]
 
 
+def signal_scenarios():
+    """Scripted scenarios of class "signal": the loop's wait is interrupted by SIGUSR1."""
+    from reactor import E
+    hs = []
+    for kind in ("sock", "pipeR", "lst", "pkt"):
+        api = {"sock": "read", "pipeR": "read", "lst": "accept", "pkt": "readfrom"}[kind]
+        for dur in (60, -1):
+            for at in (0, 1, 5):
+                # nothing ready while the signal arrives; the event comes later and must still be dispatched
+                # (only with a bounded wait: an unbounded one could miss the signal and block for good)
+                if dur > 0:
+                    hs.append([E("Reset", kinds=[kind], cls="signal", lim=32, n=0),
+                               E("Call", api=api, o=1, op=1, dir="R", n=1),
+                               E("WaitSig", n=at, d=dur),
+                               E("Env", api="send", o=1, n=1), E("PollB")])
+                # the event is ready before the wait: interrupted or not, it must be dispatched
+                hs.append([E("Reset", kinds=[kind], cls="signal", lim=32, n=0),
+                           E("Call", api=api, o=1, op=1, dir="R", n=1),
+                           E("Env", api="send", o=1, n=1),
+                           E("WaitSig", n=at, d=dur)])
+    for at in (1, 3):
+        # a timer due after the interruption must still fire
+        hs.append([E("Reset", kinds=[], cls="signal", lim=32, n=1),
+                   E("TSchedB", t=1, n=0, d=12000), E("WaitSig", n=at, d=100), E("WaitSig", n=at, d=100)])
+    return hs
+
+
 def run(ck):
     ck.cov["rule"] = ("scenario = history of a command-issuing transition of an exhaustive ReactorImpl state graph "
                       "(seeded sample in the quick tier), getters sampled after every top-level step; class runpending ends "
                       "with IO.RunPending under a watchdog; non-trivial = a completion callback ran nested inside another callback")
-    reactor.run_configs(ck, configs(ck.tier), FOCUS, env={"VERIF_TICKUS": "2000"})
+    sw = reactor.run_configs(ck, configs(ck.tier), FOCUS, env={"VERIF_TICKUS": "2000"})
+    reactor.scripted(ck, sw, "signal", signal_scenarios() * (1 if ck.tier == "quick" else 10), FOCUS,
+                     "scripted: SIGUSR1 interrupts RunOneFor / RunOne")
     ck.cov["exhaustive"] = False
 
 
